@@ -76,6 +76,8 @@ class Actor:
                     requested = self.cancel_requested > 0
                     w.rec("op_end", actor=self.aid, i=i, do=kind, ok=False, cancelled=True, requested=requested, err=exc_info(exc))
                     self.current = None
+                    if kind in PROBED_OPS and self.ctx.scn.get("probe_ops"):
+                        _post_op_probe(self.ctx, self.aid, i)
                     if requested:
                         self.cancel_requested -= 1
                         if st.get("stop_on_cancel", True):
@@ -87,16 +89,51 @@ class Actor:
                 except Exception as exc:
                     w.rec("op_end", actor=self.aid, i=i, do=kind, ok=False, err=exc_info(exc))
                     self.current = None
+                    if kind in PROBED_OPS and self.ctx.scn.get("probe_ops"):
+                        _post_op_probe(self.ctx, self.aid, i)
                     if st.get("stop_on_error", self.spec.get("stop_on_error", False)):
                         break
                     continue
                 w.rec("op_end", actor=self.aid, i=i, do=kind, ok=True, value=val)
                 self.current = None
+                if kind in PROBED_OPS and self.ctx.scn.get("probe_ops"):
+                    _post_op_probe(self.ctx, self.aid, i)
         except HarnessError as exc:
             self.ctx.harness_errors.append(repr(exc))
         finally:
             self.done = True
             w.rec("actor_done", actor=self.aid)
+
+
+PROBED_OPS = {"request", "conn.request", "device_info", "list_entities", "ble.read", "ble.write", "ble.notify", "ble.services", "ble.pair", "ble.unpair", "ble.clear_cache", "ble.disconnect", "ble.connect"}
+
+
+def _post_op_probe(ctx: "Ctx", aid: str, i: int, hops: int = 3) -> None:
+    """A few zero-time turns after a request-response operation ended (however it ended), record how many
+    request timeout timers are armed and how many such operations are still running: every running call owns one."""
+    from .core import cb_name
+
+    w = ctx.world
+
+    def hop(n: int) -> None:
+        if n > 0:
+            w.schedule("post", lambda: hop(n - 1))
+            return
+        armed = 0
+        for h in w.loop._scheduled:
+            if h._cancelled or isinstance(h._callback, HarnessCallback):
+                continue
+            if cb_name(h._callback).endswith("handle_timeout"):
+                armed += 1
+        running = 0
+        for a in ctx.actors.values():
+            # connect phases (handshake / hello-login wait) and disconnect (DisconnectResponse wait) own one such timer too
+            if a.current is not None and a.spec.get("steps", [])[a.current]["do"] in (PROBED_OPS | {"connect", "finish", "conn.finish", "disconnect", "conn.disconnect"}):
+                running += 1
+        w.rec("post_op_timers", actor=aid, i=i, armed=armed, running=running)
+
+    if w.loop is not None and not w.loop.is_closed():
+        hop(hops)
 
 
 class Ctx:
@@ -264,6 +301,7 @@ def _apply_event(ctx: Ctx, ev: dict) -> None:
         elif kind == "write_raises":
             w.knobs["write_raises"] = {"RuntimeError": RuntimeError, "OSError": OSError}[ev.get("exc", "RuntimeError")]
             w.knobs["write_raises_now"] = ev.get("always", False)
+            w.rec("write_raises_armed", always=bool(ev.get("always", False)))
         elif kind == "mdns":
             _deliver_mdns(ctx, ev)
         elif kind == "knob":
@@ -949,7 +987,12 @@ async def _b_notify(ctx: Ctx, a: Actor, st: dict) -> Any:
 async def _b_notify_stop(ctx: Ctx, a: Actor, st: dict) -> Any:
     ent = ctx.subs.pop("notify:" + st["tag"], None)
     if ent is None:
-        return "no-subscription"
+        again = ctx.extra.get("ble_unsubbed", {}).get("notify:" + st["tag"])
+        if again is None:
+            return "no-subscription"
+        again[1]()  # remove_callback after a stop / a second remove: idempotent by contract
+        return "again"
+    ctx.extra.setdefault("ble_unsubbed", {})["notify:" + st["tag"]] = ent
     stop, remove = ent
     if st.get("remove_only"):
         remove()
@@ -1001,7 +1044,12 @@ async def _b_connect(ctx: Ctx, a: Actor, st: dict) -> Any:
 async def _b_unsub(ctx: Ctx, a: Actor, st: dict) -> Any:
     unsub = ctx.subs.pop("bleconn:" + st["tag"], None)
     if unsub is None:
-        return "no-subscription"
+        again = ctx.extra.get("ble_unsubbed", {}).get("bleconn:" + st["tag"])
+        if again is None:
+            return "no-subscription"
+        again()  # the unsubscribe callable is idempotent by contract
+        return "again"
+    ctx.extra.setdefault("ble_unsubbed", {})["bleconn:" + st["tag"]] = unsub
     unsub()
 
 
